@@ -11,6 +11,7 @@ mod props;
 mod rat;
 mod runner;
 mod solve;
+mod text;
 
 use runner::*;
 
@@ -18,8 +19,12 @@ fn drivers() -> Vec<Box<dyn Driver>> {
     vec![
         Box::new(props::c01::C01),
         Box::new(props::c01::C02),
+        Box::new(props::c03::C03),
         Box::new(props::c04::C04),
         Box::new(props::c04::C05),
+        Box::new(props::c07::C07),
+        Box::new(props::c07::C08),
+        Box::new(props::c12::C12),
         Box::new(props::c13::C13),
         Box::new(props::c14::C14),
         Box::new(props::c17::C17),
@@ -81,6 +86,13 @@ fn main() {
             });
             let ctx = Ctx { tier, seed };
             worker_main(d.as_ref(), &ctx, WorkerArgs { shard, nshards, resume_unit, resume_case, only });
+        }
+        "debug-c12" => {
+            // rv debug-c12 <seed> <unit> <case>: dump the builder model and its re-parsed rendering
+            let seed: u64 = args[2].parse().unwrap();
+            let unit: usize = args[3].parse().unwrap();
+            let case: usize = args[4].parse().unwrap();
+            props::c12::debug_case(seed, unit, case);
         }
         other => {
             eprintln!("unknown command {other}");
